@@ -261,6 +261,33 @@ fn run_type<T: Int>(rep: &Report, cli: &Cli) {
         }
         c.done();
     });
+    // (iii-b) PAT: numerals with every adjacent digit pair at every position, and ascending /
+    // descending digit patterns of every length (also 1..3 digits longer than MAX: overflow)
+    if T::TY.bits > 16 {
+        par_items(&all, cli.threads, |_, &radix| {
+            let mut c = Ck::new(rep, &format!("{}:PAT", T::NAME));
+            for iv in harness::intglue::pair_values::<T>(radix) {
+                let mut s: Vec<u8> = if iv.neg { b"-".to_vec() } else { Vec::new() };
+                s.extend(numeral_mag(iv.mag, radix));
+                c.check::<T>(&s, radix);
+                if radix > 10 && iv.mag % 7 == 0 {
+                    c.check::<T>(&s.to_ascii_lowercase(), radix);
+                }
+            }
+            let ndig = numeral_mag(T::TY.max_mag(false), radix).len();
+            for len in ndig.saturating_sub(1)..=ndig + 3 {
+                for neg in [false, true] {
+                    let mut s: Vec<u8> = if neg { b"-".to_vec() } else { Vec::new() };
+                    s.extend((0..len).map(|i| digit_char((i as u32 % (radix - 1)) + 1)));
+                    c.check::<T>(&s, radix);
+                    let mut s: Vec<u8> = if neg { b"-".to_vec() } else { Vec::new() };
+                    s.extend((0..len).map(|i| digit_char(((len - 1 - i) as u32 % (radix - 1)) + 1)));
+                    c.check::<T>(&s, radix);
+                }
+            }
+            c.done();
+        });
+    }
     // (iv) RANGE for 8/16-bit
     if T::TY.bits <= 16 {
         let radices: Vec<u32> = if thorough { all.clone() } else { s_radices.clone() };
